@@ -5,7 +5,9 @@ pub mod c02;
 pub mod c03;
 pub mod c04;
 pub mod c09;
+pub mod c10;
 pub mod c16;
+pub mod c17;
 pub mod common;
 pub mod smoke;
 pub mod txw;
@@ -18,7 +20,9 @@ pub fn run(what: &str, tier: &str, _rest: &[String]) -> i32 {
         "C03" => c03::run(tier),
         "C04" => c04::run(tier),
         "C09" => c09::run(tier),
+        "C10" => c10::run(tier),
         "C16" => c16::run(tier),
+        "C17" => c17::run(tier),
         _ => {
             eprintln!("unknown check {} ({})", what, tier);
             64
